@@ -177,9 +177,9 @@ Spec == Init /\ [][Next]_vars
 Agree(s, sto) ==
   \A k \in Keys :
      /\ (s.ent[k] # None)  <=> (sto[k] # NoneE /\ ~sto[k].tomb)
-     /\ (s.ent[k] # None)  => sto[k].ts = s.ent[k]
+     /\ (s.ent[k] # None)  => (sto[k] # NoneE /\ sto[k].ts = s.ent[k])
      /\ (s.dead[k] # None) <=> (sto[k] # NoneE /\ sto[k].tomb)
-     /\ (s.dead[k] # None) => sto[k].ts = s.dead[k]
+     /\ (s.dead[k] # None) => (sto[k] # NoneE /\ sto[k].ts = s.dead[k])
 C02_Agree == Agree(st, store)
 
 \* C07: after a restart the rebuilt set is exactly what storage holds (Agree), and every
